@@ -303,10 +303,15 @@ class LayerBuilder:
         from odxtools.multiplexerswitchkey import MultiplexerSwitchKey
         it = switch_dop.diag_coded_type.base_data_type
         cs = []
+        def lim(v):
+            if v is None:
+                # <LOWER-LIMIT INTERVAL-TYPE="INFINITE"/>: unbounded
+                return Limit(value_raw=None, value_type=it, interval_type=IntervalType.INFINITE)
+            return Limit(value_raw=str(v), value_type=it, interval_type=IntervalType.CLOSED)
+
         for sn, lo, hi, st in cases:
             cs.append(mk(MultiplexerCase, short_name=sn, structure_ref=self.ref(st) if st is not None else None,
-                         lower_limit=Limit(value_raw=str(lo), value_type=it, interval_type=IntervalType.CLOSED),
-                         upper_limit=Limit(value_raw=str(hi), value_type=it, interval_type=IntervalType.CLOSED)))
+                         lower_limit=lim(lo), upper_limit=lim(hi)))
         dc = None
         if default is not None:
             dc = mk(MultiplexerDefaultCase, short_name="default_case",
